@@ -460,6 +460,25 @@ def _text_level(ctx, P):
         ctx.report("R13.2", fi, "signature text with adversarial names", bad)
     else:
         ctx.ok("R13.2", f"signature text with {len(names)} adversarial names ({n} signatures)", "names come back intact")
+    # a user's dummy axis name must not decide anything on the whole apply path (padded, lazy with map_overlap, plain):
+    # the outcome for an adversarial name equals the outcome for the neutral name `k`
+    app = P.func("grid_ufunc:apply_as_grid_ufunc")
+
+    def outcome(nm, **kw):
+        outs = run_apply(P, f"({nm}:center)->({nm}:left)", [(AX,)], boundary_width={nm: (1, 0)}, axnames=("AX",), **kw)
+        return sorted((o.kind, o.value if o.kind == "raise" else "") for o in outs)
+
+    for mode, kw in (("map_overlap", {"map_overlap": True}), ("plain", {})):
+        try:
+            base = outcome("k", **kw)
+            odd = [nm for nm in ("winner", "router", "inner_k", "outer_shelf", "centered", "leftover", "tright") if outcome(nm, **kw) != base]
+        except Unmodelled as e:
+            ctx.unknown("R13.2", f"dummy axis names on the {mode} apply path", str(e))
+            continue
+        if odd:
+            ctx.report("R13.2", app, f"dummy axis names on the {mode} apply path", f"a grid ufunc whose dummy axis is called {odd[0]!r} is treated differently from the same ufunc with the name `k` ({outcome(odd[0], **kw)} vs {base}): the name's text is inspected")
+        else:
+            ctx.ok("R13.2", f"dummy axis names on the {mode} apply path", "seven names containing position words behave like `k`")
     # the 1-D signature built by the dispatch from the real axis name goes through this parser:
     cr = P.func("grid:Grid._create_1d_grid_ufunc_signatures")
     texts = []
